@@ -402,6 +402,17 @@ func (e *Engine) applyContractEnv(st *State, fr *Frame, c *Contract, env map[str
 			e.oblige(st, "requires", e.callSiteName("requires", calleeName, in)+fmt.Sprintf(".%d", cl.Ord), g, in.Pos(), unionProps(props, e.cur.c.Props), cl.Text)
 		}
 	}
+	// references for freshref(...) in the ensures clauses are reserved before the assigned locations are forgotten, so
+	// that a forgotten reference may turn out to be one of them
+	var freshPool []uint64
+	for _, cl := range c.Clauses {
+		if cl.Kind == "ensures" && cl.Case == "" {
+			for k := strings.Count(cl.Text, "freshref("); k > 0; k-- {
+				st.nextRef++
+				freshPool = append(freshPool, st.nextRef)
+			}
+		}
+	}
 	pre := st.snapshot()
 	pctx := &evalCtx{e: e, st: pre, env: env, pkg: pkg}
 	assigns := c.clauses("assigns")
@@ -474,7 +485,7 @@ func (e *Engine) applyContractEnv(st *State, fr *Frame, c *Contract, env map[str
 		}
 	}
 	bindNamed()
-	actx := &evalCtx{e: e, st: st, old: pre, env: renv, pkg: pkg}
+	actx := &evalCtx{e: e, st: st, old: pre, env: renv, pkg: pkg, freshPool: &freshPool}
 	// ghost parameters of the callee without initialiser are universally quantified in its proof: the caller may
 	// use the postconditions for every value (bound variables per leaf)
 	var bounds []*Term
